@@ -432,6 +432,49 @@ def discharge(ob: Obligation, rlimit=Z3_RLIMIT, use_cvc5=True):
     return "unsat", backend_used, time.time() - t0, None
 
 
+def discharge_batches(obligations, rlimit=1_500_000):
+    """Fast path: obligations generated at the same program point share their hypotheses; assert those once in an
+    incremental solver and check each goal under push/pop.  Only `unsat` answers are used (sound: same query as
+    discharge() without goal splitting); everything else goes through the full pipeline."""
+    groups = {}
+    for ob in obligations:
+        key = (ob.path_id, len(ob.hyps), ob.hyps[-1].get_id() if ob.hyps else 0)
+        groups.setdefault(key, []).append(ob)
+    out = {}
+    for key, obs in groups.items():
+        if len(obs) < 3:
+            continue
+        s = z3.Solver()
+        s.set("rlimit", rlimit)
+        s.set("timeout", 20_000)
+        hyps = obs[0].hyps
+        if any(len(o.hyps) != len(hyps) or any(a.get_id() != b.get_id() for a, b in zip(o.hyps, hyps)) for o in obs[1:]):
+            continue
+        for h in hyps:
+            s.add(h)
+        goals = [o.goal for o in obs]
+        for ax in axioms_for(list(hyps) + goals):
+            s.add(ax)
+        for o in obs:
+            if o.hints:
+                continue
+            t0 = time.time()
+            g = z3.simplify(o.goal)
+            if z3.is_true(g):
+                out[id(o)] = time.time() - t0
+                continue
+            s.push()
+            s.add(z3.Not(o.goal))
+            try:
+                r = s.check()
+            except z3.Z3Exception:
+                r = z3.unknown
+            s.pop()
+            if r == z3.unsat:
+                out[id(o)] = time.time() - t0
+    return out
+
+
 def run_cvc5(smt2: str, timeout_s=60):
     with tempfile.NamedTemporaryFile("w", suffix=".smt2", delete=False, dir=os.environ.get("PYVC_WORK", None)) as fh:
         fh.write("(set-logic ALL)\n" + smt2)
@@ -490,8 +533,12 @@ def verify_function(world, contract, use_cvc5=True, known=(), only_prop=None, pa
         obligations = [ob for ob in obligations if only_prop in ob.props]
     if part is not None:  # (i, n): this worker discharges every n-th obligation (the exploration is repeated per worker)
         obligations = [ob for k, ob in enumerate(obligations) if k % part[1] == part[0]]
+    pre_verdicts = discharge_batches(obligations)
     for ob in obligations:
-        verdict, backend, dt, model = discharge(ob, use_cvc5=use_cvc5)
+        if id(ob) in pre_verdicts:
+            verdict, backend, dt, model = "unsat", "z3", pre_verdicts[id(ob)], None
+        else:
+            verdict, backend, dt, model = discharge(ob, use_cvc5=use_cvc5)
         solver_time += dt
         backends.setdefault(backend, [0, 0.0])
         backends[backend][0] += 1
